@@ -138,3 +138,15 @@ def run(rep, tier):
                 return self.rep.add('R9', key, ok, where, detail, nontrivial, data)
             return ok
     c05.rule_absolute(S(rep, 'R9'), idx)
+    # R12: nothing is rejected once the output file exists (import of C14-R4, late throws and their re-verified exemptions)
+    rep.rule('R12', '"reports a diagnostic and emits nothing": no repository error can be raised after emitBin has opened the output file; the '
+             'internal-invariant throws that stay reachable there are shown unreachable by construction-time validation, re-verified on '
+             'every run (import of C14-R4)', floor=3)
+    from . import c14
+
+    class S12(_SubReport):
+        def add(self, rule, key, ok, where='', detail='', nontrivial=True, data=None):
+            if rule == 'R4' and (key.startswith('no-reject-after-open') or key.startswith('exemption-holds') or key.startswith('validate-before-emit')):
+                return self.rep.add('R12', key, ok, where, detail, nontrivial, data)
+            return ok
+    c14.rule_r4(S12(rep, 'R12'), {tu: cast.load(tu) for tu in c14.MAINS})
